@@ -197,7 +197,7 @@ func reshapeClass(before, after []Ent) string {
 // between them.
 func TestPropReshape(t *testing.T) {
 	defer dropBase()
-	hx.Check(t, "reshape", hx.N(160, 1200), func(t *rapid.T) {
+	hx.Check(t, "reshape", hx.N(120, 1200), func(t *rapid.T) {
 		c := &Case{Kind: "raw"}
 		b := rapid.SampledFrom(budgets).Draw(t, "budget")
 		var n0 int
@@ -269,18 +269,16 @@ func fixedShape(which, tag string) []Ent {
 		for i := 0; i < 10; i++ {
 			es = append(es, mk(i, 3+i%3, []string{"f", "d", "f", "l", "f"}[i%5]))
 		}
-	case "5long":
-		for i := 0; i < 5; i++ {
-			es = append(es, mk(i, 200+i*13, []string{"f", "d", "f", "l", "f"}[i%5]))
+	case "4long":
+		for i := 0; i < 4; i++ {
+			es = append(es, mk(i, 120+i*13, []string{"f", "d", "f", "l", "f"}[i%5]))
 		}
 	case "3mixed":
 		es = []Ent{mk(0, 17, "d"), mk(1, 255, "f"), mk(2, 100, "l")}
-	case "40short":
-		for i := 0; i < 40; i++ {
+	case "14short":
+		for i := 0; i < 14; i++ {
 			es = append(es, mk(i, 3+(i*7)%30, []string{"f", "f", "d", "f", "l"}[i%5]))
 		}
-	case "1":
-		es = []Ent{mk(0, 40, "f")}
 	}
 	return es
 }
@@ -292,7 +290,7 @@ func fixedShape(which, tag string) []Ent {
 // of A is abandoned after one read.
 func TestEnumReshape(t *testing.T) {
 	defer dropBase()
-	pairs := [][2]string{{"10short", "5long"}, {"5long", "10short"}, {"40short", "3mixed"}, {"3mixed", "40short"}, {"5long", "1"}}
+	pairs := [][2]string{{"10short", "4long"}, {"4long", "10short"}, {"14short", "3mixed"}}
 	const msize = 4096
 	n := 0
 	for _, dotu := range []bool{true, false} {
